@@ -112,15 +112,15 @@ def walk (p : Bytes) : Nat → Nat → List UInt8
 /-- the number of `update_keys` calls a record with plaintext `p` triggers: the 20s among the walked type bytes -/
 def seenFins (p : Bytes) : Nat := ((walk p p.length 0).filter (· = 20)).length
 
-theorem hs13Loop_walk {δ : Type} (O : Session.Ops δ) (srv : Bool) (p : Bytes) :
+theorem legacy_hs13Loop_walk {δ : Type} (O : Session.Ops δ) (srv : Bool) (p : Bytes) :
     ∀ (fuel i : Nat) (d : δ),
-      Session.hs13Loop O p srv fuel i d = updFold O srv d ((walk p fuel i).map fun t => ((t, []) : HsMsg)) := by
+      Session.Legacy.hs13Loop O p srv fuel i d = updFold O srv d ((walk p fuel i).map fun t => ((t, []) : HsMsg)) := by
   intro fuel
   induction fuel with
   | zero => intro i d; rfl
   | succ n ih =>
     intro i d
-    rw [Session.hs13Loop, walk]
+    rw [Session.Legacy.hs13Loop, walk]
     cases hp : p[i]? with
     | none => rfl
     | some t =>
@@ -141,51 +141,6 @@ theorem finCount_walk (l : List UInt8) :
   | cons t r ih =>
     rw [List.map_cons, finCount_cons, ih]
     by_cases h : t = 20 <;> simp [List.filter_cons, h]; omega
-
-/-- a protected TLS 1.3 handshake record carrying ANY bytes `b` of the sender's handshake stream, after which the
-    sender has switched `n` times: if the tool's walk over `b` sees exactly `n` type-20 bytes, nothing is exported and
-    the decryptor stays related to the sender -/
-theorem handleRecord_frag13 (H : Crypto.Prims) (P : Prims) (L : SealLaws P) (kl : List Keylog.Key) (cls : CipherClass)
-    (h13 : cls.is13 = true) (macLen : Nat) (ver : Bytes) (hv : ver.length = 2) (x : Snd) (s : Session.St Dec)
-    (hs : Ready cls macLen x s) (srv : Bool) (b : Bytes) (n : Nat) (f : Fresh) (hn : seenFins b = n)
-    (hq : max x.c.seq x.s.seq + (1 + n) ≤ seqLimit) (m : Bool) (car : List Nat) :
-    let o := protect P L cls ver (x.get srv) 22 b f
-    let x' := x.set srv (switchN n o.1)
-    (Session.handleRecord (Pipeline.ops H P kl) m s ⟨o.2, car⟩ srv).traffic = s.traffic ∧
-      Ready cls macLen x' (Session.handleRecord (Pipeline.ops H P kl) m s ⟨o.2, car⟩ srv) ∧
-      max x'.c.seq x'.s.seq ≤ max x.c.seq x.s.seq + (1 + n) := by
-  obtain ⟨hcan, ⟨v, hver, hv13⟩, d, hdec, hR⟩ := hs
-  obtain ⟨h1, h2, h3, h4⟩ := step_exact P L cls macLen ver hv x d hR (.send srv 22 b f)
-    (sendOk_13 cls h13 macLen _ f) (by omega)
-  simp only [step, expected] at h1 h2 h3 h4
-  intro o x'
-  change (x.set srv o.1).c.seq ≤ _ at h3
-  change (x.set srv o.1).s.seq ≤ _ at h4
-  have hd : (Pipeline.ops H P kl).decrypt d ⟨o.2, car⟩ srv
-      = ((recvStep P d (.record srv o.2)).1, some (some (delivered cls 22 b f))) := by
-    rw [ops_decrypt, h1]; rfl
-  have hcnt : finCount ((walk b b.length 0).map fun t => ((t, []) : HsMsg)) = n := by
-    rw [finCount_walk]; exact hn
-  obtain ⟨d', e1, e2, e3⟩ := updFold_rel H P L kl cls h13 macLen ver hv srv
-    ((walk b b.length 0).map fun t => ((t, []) : HsMsg)) (x.set srv o.1)
-    (recvStep P d (.record srv o.2)).1 h2 (by rw [hcnt]; omega)
-  rw [hcnt, after_switches, Lemmas.RecLayer.sget_set, set_set] at e2 e3
-  have heq : Session.handleRecord (Pipeline.ops H P kl) m s ⟨o.2, car⟩ srv
-      = ({ s with dec := some d' } : Session.St Dec) := by
-    unfold Session.handleRecord Session.handleRecordRaw
-    have htyp : (⟨o.2, car⟩ : Session.Rec).typ = some 23 := protect_head_13 P L cls h13 ver _ 22 _ f
-    have hve : v = .tls13 := hv13.mpr h13
-    subst hve
-    rw [htyp]
-    simp only [hcan, hdec, hver]
-    have hrs : Session.rstrip0 (delivered cls 22 b f) = b ++ [22] := by
-      rw [delivered_13 cls h13]; exact rstrip0_inner _ 22 f.pad13 (by decide)
-    have hloop := hs13Loop_walk (Pipeline.ops H P kl) srv b b.length 0 (recvStep P d (.record srv o.2)).1
-    simp [Session.app13, hdec, hd, hrs, Session.Out.st, hcan, hver, Session.tryExcept, hloop, e1]
-  change max x'.c.seq x'.s.seq ≤ _ at e3
-  refine ⟨by rw [heq], ?_, by omega⟩
-  rw [heq]
-  exact ⟨hcan, ⟨v, hver, hv13⟩, _, rfl, e2⟩
 
 -- ------------------------------------------------------------------ the session over fragmenting scripts
 def evRawF (P : Prims) (L : SealLaws P) (cls : CipherClass) (ver : Bytes) (sd : SDir) : FEv → Bytes
@@ -209,14 +164,6 @@ theorem sendDirF_eq_nil (P : Prims) (L : SealLaws P) (cls : CipherClass) (ver : 
   | nil => rfl
   | cons e r => rw [sendDirF_cons] at h; cases h
 
-/-- LOCKSTEP: the tool's walk over the record's plaintext sees as many type-20 bytes as Finished messages end in the
-    record (the sender's switches). The hypothesis of the partial result. -/
-def Lock : FEv → Prop
-  | .frag b n _ => seenFins b = n
-  | _ => True
-
-instance (e : FEv) : Decidable (Lock e) := by cases e <;> unfold Lock <;> infer_instance
-
 def costF : List FEv → Nat
   | [] => 0
   | .frag _ n _ :: r => 1 + n + costF r
@@ -230,31 +177,48 @@ theorem plainOfF_cons (e : FEv) (r : List FEv) : plainOfF (e :: r) = plainOfF [e
 
 def updF (rem : Bool → List FEv) (d : Bool) (l : List FEv) : Bool → List FEv := fun d' => if d' = d then l else rem d'
 
+/-- how the records of a fragmenting script meet the buffer: with `t` buffered, each handshake record's bytes complete
+    the messages `newly` (whose Finished count is the record's `fins`) and leave the unfinished tail `t'` -/
+def Plan : Bytes → List FEv → Prop
+  | _, [] => True
+  | t, .ccs :: r => Plan t r
+  | t, .app _ _ :: r => Plan t r
+  | t, .frag b n _ :: r =>
+    ∃ (newly : List HsMsg) (t' : Bytes), t ++ b = encMsgs newly ++ t' ∧ Incomplete t' ∧ (∀ m ∈ newly, MsgOk m) ∧
+      n = finCount newly ∧ Plan t' r
+
+theorem updB_self (bf : Bool → Bytes) (d : Bool) : updB bf d (bf d) = bf := by
+  funext d'; unfold updB; split <;> simp_all
+
 theorem stepF (H : Crypto.Prims) (P : Prims) (L : SealLaws P) (kl : List Keylog.Key) (cls : CipherClass)
     (h13 : cls.is13 = true) (macLen : Nat) (ver : Bytes) (hv : ver.length = 2) (x : Snd) (s : Session.St Dec)
-    (hs : Ready cls macLen x s) (d : Bool) (e : FEv) (car : List Nat) (hlock : Lock e)
-    (hq : max x.c.seq x.s.seq + costF [e] ≤ seqLimit) :
+    {bf : Bool → Bytes} (hs : ReadyB cls macLen x s bf) (d : Bool) (e : FEv) (rest : List FEv) (car : List Nat)
+    (hplan : Plan (bf d) (e :: rest)) (hq : max x.c.seq x.s.seq + costF [e] ≤ seqLimit) :
     let s' := Session.handleRecord (Pipeline.ops H P kl) false s ⟨evRawF P L cls ver (x.get d) e, car⟩ d
     let x' := x.set d (evNextF P L cls ver (x.get d) e)
-    Ready cls macLen x' s' ∧
+    ∃ t', ReadyB cls macLen x' s' (updB bf d t') ∧ Plan t' rest ∧
     (∀ d', dirPlain d' s'.traffic = dirPlain d' s.traffic ++ (if d' = d then plainOfF [e] else [])) ∧
     max x'.c.seq x'.s.seq ≤ max x.c.seq x.s.seq + costF [e] := by
   intro s' x'
   cases e with
   | ccs =>
-    obtain ⟨a1, a2, a3, _, _, _, a7⟩ := handleRecord_ccs (Pipeline.ops H P kl) false s
+    obtain ⟨a1, a2, a3, _, _, _, a7, a8, a9⟩ := handleRecord_ccs (Pipeline.ops H P kl) false s
       ⟨record 20 ver [1], car⟩ d (record_typ 20 ver [1] car)
     have hx : x' = x := set_get x d
     rw [hx]
-    refine ⟨hs.of_eq a1 a2 a3, ?_, by omega⟩
+    refine ⟨bf d, by rw [updB_self]; exact hs.of_eq a1 a2 a3 a8 a9, hplan, ?_, by omega⟩
     intro d'
     show dirPlain d' (Session.handleRecord _ false s ⟨record 20 ver [1], car⟩ d).traffic = _
     rw [a7 rfl]; simp [plainOfF]
   | frag b n f =>
+    obtain ⟨newly, t', hsplit, hinc, hms, hn, hrest⟩ := hplan
+    subst hn
     simp only [costF] at hq
-    obtain ⟨b1, b2, b3⟩ := handleRecord_frag13 H P L kl cls h13 macLen ver hv x s hs d b n f hlock (by omega) false car
+    obtain ⟨b1, b2, b3⟩ := handleRecord_frag H P L kl cls h13 macLen ver hv x s hs d b f newly t' hms hsplit hinc
+      (by omega) false car
+    rw [after_switches, Lemmas.RecLayer.sget_set, set_set] at b2 b3
     change max x'.c.seq x'.s.seq ≤ _ at b3
-    refine ⟨b2, ?_, by simp only [costF]; omega⟩
+    refine ⟨t', b2, hrest, ?_, by simp only [costF]; omega⟩
     intro d'
     show dirPlain d' (Session.handleRecord _ false s ⟨(protect P L cls ver (x.get d) 22 b f).2, car⟩ d).traffic = _
     rw [b1]; simp [plainOfF]
@@ -264,29 +228,29 @@ theorem stepF (H : Crypto.Prims) (P : Prims) (L : SealLaws P) (kl : List Keylog.
       (sendOk_13 cls h13 macLen pt f) (by omega) false car
     change x'.c.seq ≤ _ at c3
     change x'.s.seq ≤ _ at c4
-    refine ⟨c2, ?_, by simp only [costF]; exact Nat.max_le.mpr ⟨by omega, by omega⟩⟩
+    refine ⟨bf d, by rw [updB_self]; exact c2, hplan, ?_, by simp only [costF]; exact Nat.max_le.mpr ⟨by omega, by omega⟩⟩
     intro d'
     show dirPlain d' (Session.handleRecord _ false s ⟨(protect P L cls ver (x.get d) 23 pt f).2, car⟩ d).traffic = _
     rw [c1, dirPlain_push]
     simp [plainOfF]
 
-/-- TLS 1.3 after the ServerHello with FRAGMENTED handshake records: `Session` over any interleaving of the two sides'
-    records exports each side's application plaintexts exactly — provided every handshake record is in LOCKSTEP -/
+/-- TLS 1.3 after the ServerHello with handshake messages FRAGMENTED anywhere: `Session` (as repaired: per-direction
+    buffer) over any interleaving of the two sides' records exports each side's application plaintexts exactly -/
 theorem run_mergeF (H : Crypto.Prims) (P : Prims) (L : SealLaws P) (kl : List Keylog.Key) (cls : CipherClass)
     (h13 : cls.is13 = true) (macLen : Nat) (ver : Bytes) (hv : ver.length = 2) (M : List (Session.Rec × Bool)) :
-    ∀ (x : Snd) (s : Session.St Dec) (rem : Bool → List FEv), Ready cls macLen x s →
-      (∀ d, ∀ e ∈ rem d, Lock e) →
+    ∀ (x : Snd) (s : Session.St Dec) (rem : Bool → List FEv) (bf : Bool → Bytes), ReadyB cls macLen x s bf →
+      (∀ d, Plan (bf d) (rem d)) →
       (∀ d, (M.filter fun q => q.2 == d).map (·.1.raw) = sendDirF P L cls ver (x.get d) (rem d)) →
       max x.c.seq x.s.seq + (costF (rem false) + costF (rem true)) ≤ seqLimit →
       ∀ d, dirPlain d (Session.run (Pipeline.ops H P kl) false s M).traffic
         = dirPlain d s.traffic ++ plainOfF (rem d) := by
   induction M with
   | nil =>
-    intro x s rem _ _ hfil _ d
+    intro x s rem bf _ _ hfil _ d
     have := sendDirF_eq_nil P L cls ver _ _ (hfil d).symm
     simp [Session.run, this, plainOfF]
   | cons q M' ih =>
-    intro x s rem hs hlock hfil hq d
+    intro x s rem bf hs hplan hfil hq d
     obtain ⟨r, d0⟩ := q
     have h0 := hfil d0
     rw [filter_dir_cons_same, List.map_cons] at h0
@@ -304,17 +268,14 @@ theorem run_mergeF (H : Crypto.Prims) (P : Prims) (L : SealLaws P) (kl : List Ke
         cases d0
         · simp only [Bool.not_false, hrem] at *; omega
         · simp only [Bool.not_true, hrem] at *; omega
-      obtain ⟨g1, g4, g5⟩ := stepF H P L kl cls h13 macLen ver hv x s hs d0 e r.carriers
-        (hlock d0 e (by rw [hrem]; simp)) (by omega)
+      obtain ⟨t', g1, g2, g4, g5⟩ := stepF H P L kl cls h13 macLen ver hv x s hs d0 e rest r.carriers
+        (hrem ▸ hplan d0) (by omega)
       rw [← hr] at g1 g4
-      have hlock' : ∀ d', ∀ e' ∈ updF rem d0 rest d', Lock e' := by
-        intro d' e' he'
+      have hplan' : ∀ d', Plan (updB bf d0 t' d') (updF rem d0 rest d') := by
+        intro d'
         by_cases hd : d' = d0
-        · subst hd
-          simp only [updF, if_true] at he'
-          exact hlock d' e' (by rw [hrem]; simp [he'])
-        · simp only [updF, hd, if_false] at he'
-          exact hlock d' e' he'
+        · subst hd; simpa [updF, updB] using g2
+        · simp only [updF, updB, hd, if_false]; exact hplan d'
       have hfil' : ∀ d', (M'.filter fun q => q.2 == d').map (·.1.raw)
           = sendDirF P L cls ver ((x.set d0 (evNextF P L cls ver (x.get d0) e)).get d') (updF rem d0 rest d') := by
         intro d'
@@ -330,7 +291,7 @@ theorem run_mergeF (H : Crypto.Prims) (P : Prims) (L : SealLaws P) (kl : List Ke
         have : costF (updF rem d0 rest false) + costF (updF rem d0 rest true) = costF rest + costF (rem (!d0)) := by
           cases d0 <;> simp [updF] <;> omega
         rw [this]; omega
-      have := ih _ _ (updF rem d0 rest) g1 hlock' hfil' hq' d
+      have := ih _ _ (updF rem d0 rest) (updB bf d0 t') g1 hplan' hfil' hq' d
       simp only [Session.run, List.foldl_cons] at this ⊢
       rw [this, g4 d]
       by_cases hd : d = d0
@@ -457,7 +418,7 @@ theorem hsEnc_meta_traffic (H : Crypto.Prims) (P : Prims) (L : SealLaws P) (kl :
     dirPlain d' (Session.handleRecord (Pipeline.ops H P kl) true s
         ⟨(protect P L cls ver (x.get srv) 22 body f).2, car⟩ srv).traffic
       = dirPlain d' s.traffic ++ (if d' = srv then body ++ (protect P L cls ver (x.get srv) 22 body f).2 else []) := by
-  obtain ⟨hcan, ⟨v, hver, hv13⟩, d, hdec, hR⟩ := hs
+  obtain ⟨⟨hcan, ⟨v, hver, hv13⟩, d, hdec, hR⟩, _⟩ := hs
   obtain ⟨h1, h2, h3, h4⟩ := step_exact P L cls macLen ver hv x d hR (.send srv 22 body f) hok hq
   simp only [step, expected] at h1
   generalize ho : protect P L cls ver (x.get srv) 22 body f = o at *
@@ -538,13 +499,13 @@ theorem step12m (H : Crypto.Prims) (P : Prims) (L : SealLaws P) (kl : List Keylo
           handle_clear_meta _ s ver b hv car d (hcl b (by simp)) (Or.inr hcc)
         have hx : x' = x := set_get x d
         rw [hpush, hx]
-        refine ⟨hs.of_eq rfl rfl rfl, Or.inl ⟨hcc, cl', rest, hrem, fun b' hb' => hcl b' (by simp [hb']), hrest⟩, rfl, ?_,
+        refine ⟨hs.of_eq rfl rfl rfl rfl rfl, Or.inl ⟨hcc, cl', rest, hrem, fun b' hb' => hcl b' (by simp [hb']), hrest⟩, rfl, ?_,
           by omega, by omega⟩
         intro d'
         exact dirPlain_push d' d s.traffic _ _ false
     · obtain ⟨_, _, _, h, _⟩ := hall _ (List.mem_cons_self ..); cases h
   | ccs =>
-    obtain ⟨a1, a2, a3, a4, a5, _, _⟩ := handleRecord_ccs (Pipeline.ops H P kl) true s
+    obtain ⟨a1, a2, a3, a4, a5, _, _, a8, a9⟩ := handleRecord_ccs (Pipeline.ops H P kl) true s
       ⟨record 20 ver [1], car⟩ d (record_typ 20 ver [1] car)
     have a7 := handle_ccs_meta (Pipeline.ops H P kl) s ⟨record 20 ver [1], car⟩ d (record_typ 20 ver [1] car)
     have hx : x' = x := set_get x d
@@ -555,7 +516,7 @@ theorem step12m (H : Crypto.Prims) (P : Prims) (L : SealLaws P) (kl : List Keylo
       | nil =>
         simp only [List.map_nil, List.nil_append, List.cons.injEq, true_and] at hl
         subst hl
-        refine ⟨hs.of_eq a1 a2 a3, Or.inr ⟨a4, hrest⟩, a5, ?_, by omega, by omega⟩
+        refine ⟨hs.of_eq a1 a2 a3 a8 a9, Or.inr ⟨a4, hrest⟩, a5, ?_, by omega, by omega⟩
         intro d'
         show dirPlain d' (Session.handleRecord _ true s ⟨record 20 ver [1], car⟩ d).traffic = _
         rw [a7]; exact dirPlain_push d' d s.traffic _ _ false
@@ -686,12 +647,12 @@ theorem step13m (H : Crypto.Prims) (P : Prims) (L : SealLaws P) (kl : List Keylo
     max x'.c.seq x'.s.seq ≤ max x.c.seq x.s.seq + cost [e] := by
   intro s' x'
   rcases hsc with rfl | ⟨ms, f, rfl⟩ | ⟨pt, f, rfl⟩
-  · obtain ⟨a1, a2, a3, _, _, _, _⟩ := handleRecord_ccs (Pipeline.ops H P kl) true s
+  · obtain ⟨a1, a2, a3, _, _, _, _, a8, a9⟩ := handleRecord_ccs (Pipeline.ops H P kl) true s
       ⟨record 20 ver [1], car⟩ d (record_typ 20 ver [1] car)
     have a7 := handle_ccs_meta (Pipeline.ops H P kl) s ⟨record 20 ver [1], car⟩ d (record_typ 20 ver [1] car)
     have hx : x' = x := set_get x d
     rw [hx]
-    refine ⟨hs.of_eq a1 a2 a3, ?_, by omega⟩
+    refine ⟨hs.of_eq a1 a2 a3 a8 a9, ?_, by omega⟩
     intro d'
     show dirPlain d' (Session.handleRecord _ true s ⟨record 20 ver [1], car⟩ d).traffic = _
     rw [a7]; exact dirPlain_push d' d s.traffic _ _ false
